@@ -13,6 +13,7 @@
 From Coq Require Import ZArith List Bool.
 From Alliance Require Import Num KMap Types Monad Model Step Queries Spec Hoare.
 From Alliance.Proofs Require Import Genesis.
+From Alliance.Proofs Require Import IndexSync2.
 Import ListNotations.
 Open Scope Z_scope.
 
@@ -36,3 +37,14 @@ Example C18_nonvacuous :
   map (fun kv => length (snd kv)) (redelq s) = [1%nat] /\ map (fun kv => length (snd kv)) (redelq s') = [2%nat] /\
   flag s = true /\ flag s' = false.
 Proof. vm_compute. repeat split; reflexivity. Qed.
+
+(* every reachable state is a well-formed genesis (records filed under their own fields, no empty
+   bucket, sorted maps: IndexSync / IndexSync2 / SortedInv), so the round trip holds unconditionally
+   for the states the module can actually export *)
+Theorem C18_reachable_states_are_well_formed : forall h, wf_genesis (run init_state h).
+Proof. exact reachable_states_are_well_formed. Qed.
+Print Assumptions C18_reachable_states_are_well_formed.
+Theorem C18_second_export_is_identical_in_every_reachable_state : forall h, let s := run init_state h in
+  export_genesis (reimport s) = export_genesis s.
+Proof. intros h s. apply second_export_is_identical. apply reachable_states_are_well_formed. Qed.
+Print Assumptions C18_second_export_is_identical_in_every_reachable_state.
